@@ -92,7 +92,7 @@ pub fn c13(tier: Tier) -> Check {
                non-trivial = base packet has variable content",
         assumptions: vec![],
         legs: vec![
-            Box::new(RandomLeg { name: "random-packets-x-63-paddings", cases: tier.pick(48_000, 300_000), make: Box::new(pad_case), oracle: c13_oracle }),
+            Box::new(RandomLeg { name: "random-packets-x-63-paddings", cases: tier.pick(48_000, 600_000), make: Box::new(pad_case), oracle: c13_oracle }),
             Box::new(SweepLeg {
                 name: "every-kind-template",
                 n: 2 * 11,
@@ -388,7 +388,7 @@ pub fn c15(tier: Tier) -> Check {
         assumptions: vec!["the statement gives an only-if for success: a matching kind/format is not required to decode (C05 requires it for built packets)"],
         legs: vec![
             Box::new(ListLeg { name: "lists-beyond-64KiB", cases: long_lists(), oracle: c15_oracle }),
-            Box::new(RandomLeg { name: "random-fci", cases: tier.pick(600_000, 4_000_000), make: Box::new(fci_case), oracle: c15_oracle }),
+            Box::new(RandomLeg { name: "random-fci", cases: tier.pick(600_000, 8_000_000), make: Box::new(fci_case), oracle: c15_oracle }),
             Box::new(SweepLeg {
                 name: "gating-kind-x-format",
                 n: 2 * 32 * 3,
